@@ -29,6 +29,9 @@ type Server struct {
 	// blocking work. Without one, ServeRawInline would carry a transport
 	// reader into the resolver, so the engines leave the fast path off.
 	inlineReady bool
+	// admit is the pipeline's access list, when it has one: consulted
+	// before every reply written ahead of the pipeline.
+	admit middleware.SourceAdmitter
 
 	certManager *CertManager
 	certMu      sync.Mutex
@@ -78,6 +81,12 @@ func New(cfg *config.Config) *Server {
 		for _, h := range s.pipeline.Handlers() {
 			if b, ok := h.(middleware.InlineBarrier); ok && b.InlineBarrier() {
 				s.inlineReady = true
+				break
+			}
+		}
+		for _, h := range s.pipeline.Handlers() {
+			if a, ok := h.(middleware.SourceAdmitter); ok {
+				s.admit = a
 				break
 			}
 		}
@@ -183,6 +192,11 @@ func (s *Server) serveMsgBy(
 	// cycle per packet (a cheap amplification vector that also pollutes
 	// the panic metric).
 	if len(r.Question) != 1 {
+		if !s.AdmitsSource(w.RemoteAddr()) {
+			// Outside the access list: no reply, as for a well-formed
+			// query from the same source.
+			return
+		}
 		formerr := new(dns.Msg)
 		formerr.SetRcode(r, dns.RcodeFormatError)
 		_ = w.WriteMsg(formerr)
@@ -204,6 +218,25 @@ func (s *Server) serveMsgBy(
 		ch.AllowDirectPack()
 	}
 	ch.Next(ctx)
+}
+
+// AdmitsSource reports whether a reply written ahead of the pipeline may
+// go to addr: true when the pipeline has no access list, otherwise the
+// list's own answer for the address the chain writer would derive from
+// it. An address of a kind the chain writer does not understand has no
+// client IP and is denied, exactly as the access list denies it.
+func (s *Server) AdmitsSource(addr net.Addr) bool {
+	if s.admit == nil {
+		return true
+	}
+	var ip net.IP
+	switch a := addr.(type) {
+	case *net.UDPAddr:
+		ip = a.IP
+	case *net.TCPAddr:
+		ip = a.IP
+	}
+	return s.admit.AdmitsSource(ip)
 }
 
 // ServeHTTP implements http.Handler (DoH + DoH3).
